@@ -140,7 +140,7 @@ func r01_ssa(r *Report, p *Program) {
 			if loop != nil && len(mr) > 0 {
 				succ := successEdgeOf(mr[0].Instr)
 				var from []engine.Point
-				for _, b := range f.Blocks {
+				for _, b := range engine.BlocksInl(f) {
 					for i := range b.Succs {
 						if l, ok := engine.EdgeLit(b, i); ok && succ(l) {
 							from = append(from, engine.Point{B: b.Succs[i]})
@@ -159,7 +159,7 @@ func r01_ssa(r *Report, p *Program) {
 			}
 			// memo refreshed after success: key, hash, generation of the patched object
 			var mu *ssa.MapUpdate
-			for _, b := range f.Blocks {
+			for _, b := range engine.BlocksInl(f) {
 				for _, x := range b.Instrs {
 					if m, ok := x.(*ssa.MapUpdate); ok && E(m.Map) == "global(controller/common.lastUpdatedCache)" {
 						mu = m
@@ -185,7 +185,7 @@ func r01_ssa(r *Report, p *Program) {
 					ok, why = false, "memo key is not lastUpdateCacheKey(client, obj)"
 				}
 				// lookup uses the same key value
-				for _, b := range f.Blocks {
+				for _, b := range engine.BlocksInl(f) {
 					for _, x := range b.Instrs {
 						if lk, isL := x.(*ssa.Lookup); isL && E(lk.X) == "global(controller/common.lastUpdatedCache)" && ok && !engine.SameValue(lk.Index, mu.Key) {
 							ok, why = false, "memo is read and written under different keys"
@@ -196,7 +196,7 @@ func r01_ssa(r *Report, p *Program) {
 				if ok {
 					succ := successEdgeOf(s.Instr)
 					var from []engine.Point
-					for _, b := range f.Blocks {
+					for _, b := range engine.BlocksInl(f) {
 						for i := range b.Succs {
 							if l, has := engine.EdgeLit(b, i); has && succ(l) {
 								from = append(from, engine.Point{B: b.Succs[i]})
